@@ -1300,4 +1300,194 @@ theorem inv3_step_update {j : Nat} {s : Sys} {e e' : Nat} (c : Nat) (b : BC) (ti
       · exact paths_keep h3 hx (fun v r => (hr v).mpr r) (fun v _ => hcobj v) x hx' hxj m hn1 hn2
 
 
+theorem inv3_exec {j : Nat} {s : Sys} {e e' : Nat} (hj : j ≠ 0) (l : Label)
+    (h1 : Inv1 j s e) (h2 : Inv2 j s e) (h3 : Inv3 j s e) (hd : l.drops j = false)
+    (h1' : Inv1 j (s.exec l) e') (h2' : Inv2 j (s.exec l) e') : Inv3 j (s.exec l) e' := by
+  cases l with
+  | start c st =>
+    simp only [Sys.exec] at h1' h2' ⊢
+    have hst : (s.start c st).store = s.store := by
+      simp only [Sys.start]; repeat' split
+      all_goals rfl
+    have hee : e = e' := EntRange.unique h1.range (by have := h1'.range; rw [hst] at this; exact this)
+    subst hee
+    exact inv3_start hj c st h1 h3 (by simpa [Label.drops] using hd)
+  | step c =>
+    simp only [Sys.exec] at h1' h2' ⊢
+    cases hp : (s.cl c).proc with
+    | none =>
+      have : (s.step c).1 = s := by simp [Sys.step, hp]
+      rw [this] at h1' ⊢
+      have hee : e = e' := EntRange.unique h1.range h1'.range
+      subst hee; exact h3
+    | some p =>
+      by_cases ht : p.touches j = false
+      · obtain ⟨b1, b2, b3, b4, b5, b6, b7⟩ := step_untouched s c j p hp ht
+        have hee : e = e' := EntRange.unique h1.range (by intro n; rw [← b1 n]; exact h1'.range n)
+        subst hee
+        refine inv3_frame h1 h3 b1 b2 b3 b4 b5 b6 ?_
+        intro c'
+        by_cases hcc : c' = c
+        · subst hcc
+          right; intro p' hp'
+          obtain ⟨u1, u2, u3⟩ := untouched_facts (b7 p' hp') ((s.step c').1).store ((s.step c').1).next
+          exact ⟨u1, u2, fun op a hk => absurd hk (u3 op a)⟩
+        · left; rw [step_others s c c' hcc]
+      · have ht' : p.touches j = true := by simpa using ht
+        cases p with
+        | jp j' slot k pc =>
+          have : j' = j := by simpa [Proc.touches] using ht'
+          subst this
+          exact inv3_step_jp c slot k pc hp h1 h2 h3 h1' h2'
+        | bc b ph =>
+          have hb : b.pool = j := by simpa [Proc.touches] using ht'
+          cases ph with
+          | lookup pc => exact inv3_step_lookup c b pc hp hb h1 h2 h3 h1' h2'
+          | putObj tip id => exact inv3_step_putObj c b tip id hp hb h1 h3 h1'
+          | update tip id att pc => exact inv3_step_update c b tip id att pc hp hb h1 h2 h3 h1' h2'
+          | cleanup id err => exact inv3_step_cleanup c b id err hp hb h1 h3 h1'
+        | create j' st =>
+          have := h1.noreset c _ hp
+          simp [Proc.touches] at ht'
+          simp [Proc.resets, ht'] at this
+        | openJ j' => simp [Proc.touches] at ht'
+        | delPool p' =>
+          have := h1.noreset c _ hp
+          simp [Proc.touches] at ht'
+          simp [Proc.resets, ht'] at this
+
+/-- The run starts no raw delete / move on journal j. -/
+def NoDrop (j : Nat) (ls : List Label) : Prop := ∀ l ∈ ls, l.drops j = false
+
+theorem inv123_run {j : Nat} (hj : j ≠ 0) (ls : List Label) : ∀ {s : Sys} {e : Nat},
+    Inv1 j s e → Inv2 j s e → Inv3 j s e → NoReset j ls → NoDrop j ls →
+    ∃ e', Inv1 j (s.run ls) e' ∧ Inv2 j (s.run ls) e' ∧ Inv3 j (s.run ls) e' := by
+  induction ls with
+  | nil => intro s e h1 h2 h3 _ _; exact ⟨e, h1, h2, h3⟩
+  | cons l ls ih =>
+    intro s e h1 h2 h3 hn hd
+    obtain ⟨e1, h1', _⟩ := inv1_exec l h1 (hn l (by simp))
+    have h2' := inv2_exec l h1 h2 (hn l (by simp)) h1'
+    have h3' := inv3_exec hj l h1 h2 h3 (hd l (by simp)) h1' h2'
+    exact ih h1' h2' h3' (fun l' hl' => hn l' (by simp [hl'])) (fun l' hl' => hd l' (by simp [hl']))
+
+/-- Pool j has just been created: nothing of it exists besides the empty branches journal and
+    no procedure works on it. -/
+structure PoolFresh (j : Nat) (s : Sys) : Prop where
+  untouched : ∀ c p, (s.cl c).proc = some p → p.touches j = false
+  noobj : ∀ x, s.store (.cobj j x) = none
+  noacks : ∀ x ∈ s.acks, x.pool ≠ j
+
+theorem PoolFresh.inv3 {j s} (hf : JFresh j s) (h : PoolFresh j s) : Inv3 j s 0 := by
+  have hnoref : ∀ v, ¬ Ref s.store j v := by
+    rintro v ⟨n, acts, a, h1, _, _⟩; rw [hf.noent n] at h1; cases h1
+  refine ⟨?_, fun v r => absurd r (hnoref v), fun x hx hxj => absurd hxj (h.noacks x hx), ?_, ?_, ?_,
+    fun x hx hxj => absurd hxj (h.noacks x hx)⟩
+  · intro c op a hk
+    cases hp : (s.cl c).proc with
+    | none => simp [Client.kindOn, hp] at hk
+    | some p =>
+      obtain ⟨_, _, u3⟩ := untouched_facts (h.untouched c p hp) s.store s.next
+      exact absurd (by simpa [Client.kindOn, hp] using hk) (u3 op a)
+  · intro x v hv; rw [h.noobj x] at hv; cases hv
+  · intro c p hp; exact (untouched_facts (h.untouched c p hp) s.store s.next).2.1
+  · intro c c' p p' id hp _ ho; rw [(untouched_facts (h.untouched c p hp) s.store s.next).1] at ho; cases ho
+
+/-- States reachable from a freshly created pool j by labels that neither delete the pool nor
+    remove / rename its branches. -/
+def ReachB (j : Nat) (s : Sys) : Prop :=
+  ∃ s0 ls, JFresh j s0 ∧ PoolFresh j s0 ∧ NoReset j ls ∧ NoDrop j ls ∧ s = s0.run ls
+
+theorem ReachB.reach {j s} (h : ReachB j s) : Reach j s := by
+  obtain ⟨s0, ls, hf, _, hn, _, rfl⟩ := h; exact ⟨s0, ls, hf, hn, rfl⟩
+
+theorem ReachB.inv {j s} (hj : j ≠ 0) (h : ReachB j s) : ∃ e, Inv1 j s e ∧ Inv2 j s e ∧ Inv3 j s e := by
+  obtain ⟨s0, ls, hf, hp, hn, hd, rfl⟩ := h
+  exact inv123_run hj ls hf.inv1 hf.inv2 (hp.inv3 hf) hn hd
+
+theorem ReachB.run {j s} (h : ReachB j s) (ls : List Label) (hn : NoReset j ls) (hd : NoDrop j ls) :
+    ReachB j (s.run ls) := by
+  obtain ⟨s0, l0, hf, hp, hn0, hd0, rfl⟩ := h
+  refine ⟨s0, l0 ++ ls, hf, hp, ?_, ?_, (Sys.run_append _ _ _).symm⟩
+  · intro l hl; rcases List.mem_append.mp hl with h1 | h1
+    · exact hn0 l h1
+    · exact hn l h1
+  · intro l hl; rcases List.mem_append.mp hl with h1 | h1
+    · exact hd0 l h1
+    · exact hd l h1
+
+theorem objsDecr_of_inv3 {j s e} (h3 : Inv3 j s e) : ObjsDecr s.store j := by
+  intro c par adds dels ho
+  obtain ⟨par', adds', dels', h4, h5, _⟩ := h3.objs c _ ho
+  cases h4; exact h5
+
+
+
+theorem exec_acks_mono (s : Sys) (l : Label) (x : Ack) (h : x ∈ s.acks) : x ∈ (s.exec l).acks := by
+  cases l with
+  | start c st =>
+    simp only [Sys.exec, Sys.start]
+    repeat' split
+    all_goals simpa using h
+  | step c =>
+    simp only [Sys.exec, Sys.step]
+    repeat' split
+    all_goals (first | (simpa using h) | (simp only [bcAfterLookup]; repeat' split) | skip)
+    all_goals (first | (simpa using h) | (simp [h]))
+
+theorem run_acks_mono (ls : List Label) : ∀ (s : Sys) (x : Ack), x ∈ s.acks → x ∈ (s.run ls).acks := by
+  induction ls with
+  | nil => intro s x h; exact h
+  | cons l ls ih => intro s x h; exact ih _ x (exec_acks_mono s l x h)
+
+
+/-! ### A concrete witness (non-vacuity of `ReachB`) -/
+
+/-- A lake in which client 0 has just created pool 1 (Put HEAD, Put TAIL). -/
+def poolCreated : Sys := Sys.init.run [.start 0 .create, .step 0, .step 0]
+
+theorem poolCreated_cl (c : Nat) : (poolCreated.cl c).proc = none ∧ ∀ j sl, (poolCreated.cl c).cache j sl = JCache.empty := by
+  simp only [poolCreated, Sys.run, Sys.exec, Sys.start, Sys.init, Sys.step, Sys.setClient, Client.idle]
+  by_cases h : c = 0 <;> simp [h, Client.idle]
+
+theorem poolCreated_store : poolCreated.store =
+    (((Store.empty.put (.head 0) (.num 0)).put (.tail 0) (.tailv 1 0)).put (.head 1) (.num 0)).put (.tail 1) (.tailv 1 0) := by
+  simp [poolCreated, Sys.run, Sys.exec, Sys.start, Sys.init, Sys.step, Sys.setClient, Client.idle]
+
+theorem poolCreated_acks : poolCreated.acks = [] := by decide
+
+theorem poolCreated_fresh : JFresh 1 poolCreated ∧ PoolFresh 1 poolCreated := by
+  have hcl := poolCreated_cl
+  have hst := poolCreated_store
+  refine ⟨⟨?_, ?_, ?_, ?_, ?_, ?_, ?_, ?_⟩, ⟨?_, ?_, ?_⟩⟩
+  · rw [hst]; simp [Store.put]
+  · intro n; rw [hst]; simp [Store.put, Store.empty]
+  · intro c; simp [Client.pcOn, Client.onJ, (hcl c).1]
+  · intro c sl; exact (hcl c).2 1 sl
+  · rw [hst]; simp [Store.put]
+  · rw [hst]; simp [Store.put, Store.empty]
+  · decide
+  · intro c p hp; rw [(hcl c).1] at hp; cases hp
+  · intro c p hp; rw [(hcl c).1] at hp; cases hp
+  · intro x; rw [hst]; simp [Store.put, Store.empty]
+  · intro x hx; rw [poolCreated_acks] at hx; cases hx
+
+/-- Client 1 creates branch 0 ("main") at the Nil commit, then clients 1 and 2 both commit to it,
+    interleaved so that client 2 loses the race once, removes its object and retries. -/
+def twoCommits : List Label :=
+  [.start 1 (.commit 1 0 (.insert 0 0))] ++ List.replicate 3 (.step 1) ++
+  [.start 1 (.bcommit 1 0 0 [5] []), .start 2 (.bcommit 1 0 0 [6] [])] ++
+  List.replicate 4 (.step 1) ++ List.replicate 5 (.step 2) ++ List.replicate 4 (.step 1) ++ List.replicate 20 (.step 2)
+
+
+theorem noReset_of_all {j : Nat} {ls : List Label} (h : ls.all (fun l => !(l.resets j)) = true) : NoReset j ls := by
+  intro l hl; have := List.all_eq_true.mp h l hl; simpa using this
+
+theorem noDrop_of_all {j : Nat} {ls : List Label} (h : ls.all (fun l => !(l.drops j)) = true) : NoDrop j ls := by
+  intro l hl; have := List.all_eq_true.mp h l hl; simpa using this
+
+theorem twoCommits_reach : ReachB 1 (poolCreated.run twoCommits) :=
+  ⟨poolCreated, twoCommits, poolCreated_fresh.1, poolCreated_fresh.2, noReset_of_all (by decide), noDrop_of_all (by decide), rfl⟩
+
+
 end Zed.Store
